@@ -656,7 +656,7 @@ func (g *G1) pathExpr(d int) string {
 	case 12:
 		v := g.newVar()
 		g.vars = append(g.vars, v)
-		s := paren(g.expr(kAny, 1) + " as " + v + " | " + g.pathExpr(d-1))
+		s := paren(paren(g.expr(kAny, 1)) + " as " + v + " | " + g.pathExpr(d-1))
 		g.vars = g.vars[:len(g.vars)-1]
 		return s
 	}
